@@ -1,0 +1,44 @@
+//go:build verif
+
+// This file is only compiled with the "verif" build tag. It gives the
+// verification harness read access to the index maps of an in-memory graph.
+
+package memory
+
+import (
+	"github.com/google/badwolf/storage"
+	"github.com/google/badwolf/triple"
+)
+
+// VerifDumpIndexes returns the buckets of the master index ("idx", one bucket)
+// and of the six secondary indices of an in-memory graph: index name -> list of
+// buckets -> triples in the bucket. Empty buckets are included. The second
+// value is false if g is not an in-memory graph.
+func VerifDumpIndexes(g storage.Graph) (map[string][][]*triple.Triple, bool) {
+	m, ok := g.(*memory)
+	if !ok {
+		return nil, false
+	}
+	m.rwmu.RLock()
+	defer m.rwmu.RUnlock()
+	res := make(map[string][][]*triple.Triple)
+	var all []*triple.Triple
+	for _, t := range m.idx {
+		all = append(all, t)
+	}
+	res["idx"] = [][]*triple.Triple{all}
+	for name, idx := range map[string]map[string]map[string]*triple.Triple{
+		"S": m.idxS, "P": m.idxP, "O": m.idxO, "SP": m.idxSP, "PO": m.idxPO, "SO": m.idxSO,
+	} {
+		bs := [][]*triple.Triple{}
+		for _, b := range idx {
+			var ts []*triple.Triple
+			for _, t := range b {
+				ts = append(ts, t)
+			}
+			bs = append(bs, ts)
+		}
+		res[name] = bs
+	}
+	return res, true
+}
